@@ -28,12 +28,15 @@
 //!   weaknew a0 17 (allocate object 17, reachable ONLY through a `GcWeak` in the root's weak table) |
 //!   stashweak s1 17 h3 (`upgrade` the weak entry inside `mutate`; if it is alive stash the strong
 //!   pointer, else note `dead`) | weakdrop a0 17 (forget the weak entry) |
+//!   clonefrom h3 h5 (`h3.clone_from(&h5)`: h3, an existing handle, becomes a clone of h5; for the
+//!   model this is exactly `drop h3` followed by `clone h5 h3`) |
 //!   park s1 / unpark s1 (move the set from the root into a root-held holder object and back: it
 //!   stays reachable, but through another, separately coloured, object)
 //!
 //!   K <op>|<phase>|set=<colour>|target=<colour>|first=<0|1>|<stashed|dead>   colour cell of a stash:
 //!   colours B black, G gray, W white, w white-weak (read through `Arena::verif_snapshot`);
 //!   first=1: no other stash into a set of this arena since the current marking began
+//!   J <same-set|other-set-same-arena|other-arena>|<equal|different>-index|<phase>   cell of a `clonefrom`
 //!   N <text>             a note (no model operation), e.g. `dead`
 //!
 //! Monitors (shadow = the multiset of live handle names, nothing else):
@@ -248,6 +251,7 @@ enum Op {
     WeakDrop { a: u32, p: u64 },
     Park { s: u32 },
     Unpark { s: u32 },
+    CloneFrom { dst: u32, src: u32 },
     /// end of the case: everything that is left is dropped, arenas first or handles first
     End { arenas_first: bool },
 }
@@ -282,6 +286,7 @@ impl Op {
             Op::WeakDrop { a, p } => format!("weakdrop a{a} {p}"),
             Op::Park { s } => format!("park s{s}"),
             Op::Unpark { s } => format!("unpark s{s}"),
+            Op::CloneFrom { dst, src } => format!("clonefrom h{dst} h{src}"),
             Op::End { arenas_first } => format!("end {}", if arenas_first { "arenas-first" } else { "handles-first" }),
         }
     }
@@ -317,6 +322,7 @@ impl Op {
             ["weakdrop", a, p] => Op::WeakDrop { a: nm(a, 'a')?, p: p.parse().ok()? },
             ["park", s] => Op::Park { s: nm(s, 's')? },
             ["unpark", s] => Op::Unpark { s: nm(s, 's')? },
+            ["clonefrom", d, r] => Op::CloneFrom { dst: nm(d, 'h')?, src: nm(r, 'h')? },
             ["end", "arenas-first"] => Op::End { arenas_first: true },
             ["end", "handles-first"] => Op::End { arenas_first: false },
             _ => return None,
@@ -341,6 +347,8 @@ struct HandleSt {
     h: Handle,
     set: u32,
     ptr: u64,
+    /// the slot index, as inferred from the table when the stash was made (clones inherit it)
+    idx: Option<usize>,
 }
 
 struct PaySt {
@@ -614,6 +622,7 @@ impl Exec {
             Op::WeakDrop { a, p } => self.arena_alive(a) && self.pays.get(&p).is_some_and(|x| x.weak && x.arena == a),
             Op::Park { s } => self.set_usable(s) && !self.sets[&s].parked,
             Op::Unpark { s } => self.set_usable(s) && self.sets[&s].parked,
+            Op::CloneFrom { dst, src } => dst != src && self.handles.contains_key(&dst) && self.handles.contains_key(&src),
             Op::End { .. } => !self.ended,
         };
         if !ok {
@@ -728,7 +737,8 @@ impl Exec {
                 self.cover("clone", st, ph);
                 let hd = self.handles[&h].h.clone();
                 let ptr = self.handles[&h].ptr;
-                self.handles.insert(h2, HandleSt { h: hd, set: s, ptr });
+                let idx = self.handles[&h].idx;
+                self.handles.insert(h2, HandleSt { h: hd, set: s, ptr, idx });
                 self.line('O', &format!("clone h{h} h{h2}"));
                 self.line('A', "ok");
                 self.emit_dump(s);
@@ -938,6 +948,43 @@ impl Exec {
                 self.sets.get_mut(&s).unwrap().parked = false;
                 self.emit_dump(s);
             }
+            Op::CloneFrom { dst, src } => {
+                let (ds, ss) = (self.handles[&dst].set, self.handles[&src].set);
+                let (da, sa) = (self.sets[&ds].arena, self.sets[&ss].arena);
+                let rel = if ds == ss {
+                    "same-set"
+                } else if da == sa {
+                    "other-set-same-arena"
+                } else {
+                    "other-arena"
+                };
+                let eq = match (self.handles[&dst].idx, self.handles[&src].idx) {
+                    (Some(x), Some(y)) if x == y => "equal-index",
+                    _ => "different-index",
+                };
+                let (st, ph) = (self.set_state(ss), self.phase_of(sa));
+                self.cover("clonefrom", &format!("{rel}-{eq}-src-{st}"), ph);
+                self.line('J', &format!("{rel}|{eq}|{ph}"));
+                let mut d = self.handles.remove(&dst).unwrap();
+                {
+                    let sh = &self.handles[&src];
+                    d.h.clone_from(&sh.h);
+                    d.set = sh.set;
+                    d.ptr = sh.ptr;
+                    d.idx = sh.idx;
+                }
+                self.handles.insert(dst, d);
+                // for the model: the old `dst` is dropped, a clone of `src` takes its name
+                self.line('O', &format!("drop h{dst}"));
+                self.line('A', "ok");
+                self.line('O', &format!("clone h{src} h{dst}"));
+                self.line('A', "ok");
+                self.emit_dump(ds);
+                if ss != ds {
+                    self.emit_dump(ss);
+                }
+                self.refresh_unref();
+            }
             Op::End { arenas_first } => {
                 self.cover("end", if arenas_first { "arenas-first" } else { "handles-first" }, "-");
                 self.ended = true;
@@ -955,7 +1002,8 @@ impl Exec {
         if turned.len() == 1 && turned[0] < before.len() {
             self.stats.reuse += 1;
         }
-        self.handles.insert(h, HandleSt { h: hd, set: s, ptr: p });
+        let idx = if turned.len() == 1 { Some(turned[0]) } else { None };
+        self.handles.insert(h, HandleSt { h: hd, set: s, ptr: p, idx });
         self.line('O', &format!("stash s{s} {p} h{h}"));
         self.line('A', &answer);
         self.emit_dump(s);
@@ -1174,8 +1222,8 @@ struct Profile {
     sets_per_arena: u32,
     /// relative weights: stash-new, stash-again, clone, drop, query-own, query-foreign, collect,
     /// alloc, unlink, droparena, newset, clearjunk, dump, weak scenario (colour-directed), single
-    /// weak-table operation, park / unpark
-    w: [u64; 16],
+    /// weak-table operation, park / unpark, clone_from (directed scenario or a random pair)
+    w: [u64; 17],
     /// upper bound for debts (in quarter units)
     debt_q: u64,
     junk: u32,
@@ -1184,21 +1232,21 @@ struct Profile {
 fn profile(rng: &mut Rng) -> Profile {
     match rng.below(8) {
         // slot reuse: few live stashes, many drops
-        0 => Profile { arenas: 1, sets_per_arena: 2, w: [30, 6, 8, 34, 8, 3, 16, 3, 1, 0, 1, 1, 2, 1, 3, 1], debt_q: 200, junk: 8 },
+        0 => Profile { arenas: 1, sets_per_arena: 2, w: [30, 6, 8, 34, 8, 3, 16, 3, 1, 0, 1, 1, 2, 1, 3, 1, 4], debt_q: 200, junk: 8 },
         // clones of clones
-        1 => Profile { arenas: 1, sets_per_arena: 1, w: [12, 8, 34, 26, 8, 2, 14, 3, 0, 0, 1, 1, 2, 1, 2, 1], debt_q: 120, junk: 6 },
+        1 => Profile { arenas: 1, sets_per_arena: 1, w: [12, 8, 34, 26, 8, 2, 14, 3, 0, 0, 1, 1, 2, 1, 2, 1, 4], debt_q: 120, junk: 6 },
         // tiny collection increments over a big heap: operations in every phase
-        2 => Profile { arenas: 1, sets_per_arena: 2, w: [18, 6, 10, 16, 8, 3, 40, 10, 1, 0, 1, 2, 1, 2, 6, 2], debt_q: 24, junk: 60 },
+        2 => Profile { arenas: 1, sets_per_arena: 2, w: [18, 6, 10, 16, 8, 3, 40, 10, 1, 0, 1, 2, 1, 2, 6, 2, 4], debt_q: 24, junk: 60 },
         // several arenas, foreign handles, outliving handles
-        3 => Profile { arenas: 3, sets_per_arena: 2, w: [18, 5, 10, 14, 8, 22, 14, 3, 3, 3, 3, 1, 1, 1, 3, 1], debt_q: 160, junk: 6 },
+        3 => Profile { arenas: 3, sets_per_arena: 2, w: [18, 5, 10, 14, 8, 22, 14, 3, 3, 3, 3, 1, 1, 1, 3, 1, 12], debt_q: 160, junk: 6 },
         // sets being unlinked and collected
-        4 => Profile { arenas: 2, sets_per_arena: 3, w: [20, 6, 10, 14, 8, 10, 20, 4, 8, 2, 5, 1, 1, 1, 3, 2], debt_q: 80, junk: 10 },
+        4 => Profile { arenas: 2, sets_per_arena: 3, w: [20, 6, 10, 14, 8, 10, 20, 4, 8, 2, 5, 1, 1, 1, 3, 2, 8], debt_q: 80, junk: 10 },
         // colour-directed: weakly reached objects adopted by a (black) set while marking
-        5 => Profile { arenas: 1, sets_per_arena: 2, w: [3, 2, 6, 8, 6, 2, 6, 2, 1, 0, 1, 1, 1, 30, 8, 3], debt_q: 40, junk: 6 },
+        5 => Profile { arenas: 1, sets_per_arena: 2, w: [3, 2, 6, 8, 6, 2, 6, 2, 1, 0, 1, 1, 1, 30, 8, 3, 4], debt_q: 40, junk: 6 },
         // the same amid ordinary traffic and small increments
-        6 => Profile { arenas: 2, sets_per_arena: 2, w: [12, 4, 8, 14, 6, 4, 24, 6, 2, 1, 2, 1, 1, 10, 12, 4], debt_q: 16, junk: 30 },
+        6 => Profile { arenas: 2, sets_per_arena: 2, w: [12, 4, 8, 14, 6, 4, 24, 6, 2, 1, 2, 1, 1, 10, 12, 4, 4], debt_q: 16, junk: 30 },
         // mixed
-        _ => Profile { arenas: 2, sets_per_arena: 2, w: [20, 6, 14, 20, 10, 8, 22, 5, 2, 1, 2, 1, 2, 2, 4, 2], debt_q: 100, junk: 16 },
+        _ => Profile { arenas: 2, sets_per_arena: 2, w: [20, 6, 14, 20, 10, 8, 22, 5, 2, 1, 2, 1, 2, 2, 4, 2, 4], debt_q: 100, junk: 16 },
     }
 }
 
@@ -1351,7 +1399,11 @@ impl Gen {
                     _ => self.rng.pick(&known).map(|p| Op::WeakDrop { a: ex.pays[&p].arena, p }),
                 }
             }
-            _ => self.rng.pick(&sets).map(|s| if ex.sets[&s].parked { Op::Unpark { s } } else { Op::Park { s } }),
+            15 => self.rng.pick(&sets).map(|s| if ex.sets[&s].parked { Op::Unpark { s } } else { Op::Park { s } }),
+            _ => {
+                self.clonefrom_scenario(ex, prof);
+                None
+            }
         };
         if let Some(op) = op {
             ex.exec(op);
@@ -1493,6 +1545,112 @@ impl Gen {
                 self.next_handle += 1;
                 ex.exec(Op::StashWeak { s, p, h: h3 });
             }
+        }
+    }
+
+    /// `dst.clone_from(&src)`, directed at the pairs that matter: handles of the same set (same
+    /// slot, different slots) and of different sets / arenas whose slot numbers are EQUAL (both first
+    /// stashes of fresh sets, or an equal number reached through free-list reuse) or different;
+    /// then `src` is dropped, two full cycles run (src's object must live on through `dst`, dst's
+    /// former object must go unless another handle has it) and `dst` is offered to both sets.
+    fn clonefrom_scenario(&mut self, ex: &mut Exec, prof: &Profile) {
+        let handles = self.handles(ex);
+        let cat = self.rng.below(10);
+        // candidate pairs among the live handles
+        let mut pairs: Vec<(u32, u32)> = Vec::new();
+        for &d in &handles {
+            for &r in &handles {
+                if d == r {
+                    continue;
+                }
+                let (hd, hr) = (&ex.handles[&d], &ex.handles[&r]);
+                let same_set = hd.set == hr.set;
+                let same_arena = ex.sets[&hd.set].arena == ex.sets[&hr.set].arena;
+                let eq = hd.idx.is_some() && hd.idx == hr.idx;
+                let want = match cat {
+                    0 => same_set && eq,
+                    1 => same_set && !eq,
+                    2..=4 => !same_set && same_arena && eq,
+                    5..=6 => !same_arena && eq,
+                    7 => !same_set && !eq,
+                    _ => true,
+                };
+                if want {
+                    pairs.push((d, r));
+                }
+            }
+        }
+        let mut pair = self.rng.pick(&pairs);
+        if pair.is_none() && (2..=6).contains(&cat) {
+            // make one: two fresh sets (of one arena or of two), the first stash of each gets slot 0
+            let arenas = self.live_arenas(ex);
+            let Some(a1) = self.rng.pick(&arenas) else { return };
+            let a2 = if cat >= 5 {
+                match self.rng.pick(&arenas.iter().copied().filter(|a| *a != a1).collect::<Vec<_>>()) {
+                    Some(a) => a,
+                    None => {
+                        let a = self.next_arena;
+                        self.next_arena += 1;
+                        ex.exec(Op::Arena(a));
+                        a
+                    }
+                }
+            } else {
+                a1
+            };
+            let mut made = Vec::new();
+            for a in [a1, a2] {
+                let s = self.next_set;
+                self.next_set += 1;
+                ex.exec(Op::NewSet { a, s });
+                let (p, h) = (self.next_pay, self.next_handle);
+                self.next_pay += 1;
+                self.next_handle += 1;
+                ex.exec(Op::StashNew { s, p, h });
+                made.push(h);
+            }
+            if made.iter().all(|h| ex.handles.contains_key(h)) {
+                pair = Some((made[0], made[1]));
+            }
+        }
+        let Some((dst, src)) = pair else { return };
+        if ex.violated {
+            return;
+        }
+        let old_set = ex.handles[&dst].set;
+        let new_set = ex.handles[&src].set;
+        // any phase
+        if self.rng.chance(1, 2) {
+            let a = ex.sets[&new_set].arena;
+            if ex.arena_alive(a) {
+                let op = self.collect_op(a, prof);
+                ex.exec(op);
+            }
+        }
+        ex.exec(Op::CloneFrom { dst, src });
+        if self.rng.chance(3, 4) {
+            ex.exec(Op::Drop { h: src });
+        }
+        for a in [ex.sets[&new_set].arena, ex.sets[&old_set].arena] {
+            if ex.arena_alive(a) {
+                ex.exec(Op::Collect { a, k: CK::FinCycle });
+                ex.exec(Op::Collect { a, k: CK::FinCycle });
+            }
+        }
+        if ex.violated || !ex.handles.contains_key(&dst) {
+            return;
+        }
+        for s in [new_set, old_set] {
+            if ex.set_usable(s) {
+                ex.exec(match self.rng.below(3) {
+                    0 => Op::Fetch { s, h: dst },
+                    1 => Op::TryFetch { s, h: dst },
+                    _ => Op::Contains { s, h: dst },
+                });
+            }
+        }
+        if self.rng.chance(1, 3) {
+            ex.exec(Op::Drop { h: dst });
         }
     }
 
